@@ -15,6 +15,7 @@ pub mod gen;
 pub mod io;
 pub mod out;
 pub mod probe;
+pub mod rec;
 pub mod refcodec;
 pub mod rng;
 pub mod sim;
